@@ -95,8 +95,9 @@ impl WarmUpCalculator {
         if old_value < self.warning_token
             || pass_qps < (self.threshold / self.cold_factor as f64).floor()
         {
-            new_value =
-                old_value + ((curr_time - last_time) as f64 * self.threshold / 1000.0) as u64;
+            // the cast saturates for huge thresholds or a long idle time: so does the sum
+            new_value = old_value
+                .saturating_add(((curr_time - last_time) as f64 * self.threshold / 1000.0) as u64);
         }
 
         std::cmp::min(new_value, self.max_token)
